@@ -15,7 +15,7 @@
 static const char *CFGS[] = {
     "respdecomp=1,ztime=1000000", "respdecomp=1,ztime=1000000,layers=1", "respdecomp=1,ztime=1000000,layers=3", "respdecomp=1,ztime=1000000,bomb=1000",
     "respdecomp=1,ztime=1000000,bomb=20000,layers=2", "respdecomp=1,ztime=1000000,lzmalayers=0", "respdecomp=1,ztime=1000000,lzmalayers=2",
-    "p=IDS,respdecomp=1,ztime=1000000,autodestroy=1", "respdecomp=1,ztime=1000000,hard=100", "respdecomp=1,ztime=1000000,urlenc=1,mpart=1",
+    "p=IDS,respdecomp=1,ztime=1000000,autodestroy=1", "respdecomp=1,ztime=1000000,hard=100", "respdecomp=1,ztime=1000000,urlenc=1,mpart=1", "respdecomp=1,reqdecomp=1,ztime=1000000", "respdecomp=1,reqdecomp=1,ztime=1000000,bomb=1000,urlenc=1",
 };
 #else
 static const char *CFGS[] = {
